@@ -1,6 +1,6 @@
 SPECIFICATION TSpec
 CONSTANTS NP = 3
-          NC = 8
+          NC = 12
           MaxPrio = 8
           Devs = @DEVS@
           AllModes = FALSE
